@@ -601,3 +601,9 @@ def _valid(ev, node):
         return False
     it, nt = to_int_term(idx), to_int_term(n)
     return wrap_bool(z3.And(it >= -nt, it < nt))
+
+
+@specfn("Sqrt")
+def _sqrt(ev, node):
+    x = to_real_term(ev.e(node.args[0]))
+    return SFloat(vals.sqrtf(x))
